@@ -11,10 +11,10 @@ git -C /repo worktree add -q $WT HEAD || exit 2
 mkdir -p $WT/mistral/tests/unit/seeded && touch $WT/mistral/tests/unit/seeded/__init__.py
 cp $OUT/test_demo$N.py $WT/mistral/tests/unit/seeded/test_demo$N.py
 cd $WT
-timeout 900 /venv/bin/python -m pytest -q -p no:cacheprovider mistral/tests/unit/seeded/test_demo$N.py > /tmp/cs_${ID}_clean.log 2>&1
+python3 /verif/tools/pytest_kill.py /tmp/cs_${ID}_clean.log 900 -q -p no:cacheprovider mistral/tests/unit/seeded/test_demo$N.py
 CLEAN=$(tail -1 /tmp/cs_${ID}_clean.log)
 git apply $OUT/patch$N.diff || { echo "PATCH DOES NOT APPLY"; exit 3; }
-timeout 900 /venv/bin/python -m pytest -q -p no:cacheprovider mistral/tests/unit/seeded/test_demo$N.py > /tmp/cs_${ID}_patched.log 2>&1
+python3 /verif/tools/pytest_kill.py /tmp/cs_${ID}_patched.log 900 -q -p no:cacheprovider mistral/tests/unit/seeded/test_demo$N.py
 PATCHED=$(tail -1 /tmp/cs_${ID}_patched.log)
 TESTS=$(python3 - <<PY
 import json,re
@@ -31,7 +31,7 @@ PY
 )
 EXIST="(none named)"
 if [ -n "$TESTS" ]; then
-  timeout 2400 /venv/bin/python -m pytest -q -p no:cacheprovider --timeout=600 $TESTS > /tmp/cs_${ID}_exist.log 2>&1
+  python3 /verif/tools/pytest_kill.py /tmp/cs_${ID}_exist.log 2400 -q -p no:cacheprovider --timeout=600 $TESTS
   EXIST=$(tail -1 /tmp/cs_${ID}_exist.log)
 fi
 /venv/bin/python -m compileall -q $(git diff --name-only | grep '\.py$') > /dev/null 2>&1; COMP=$?
